@@ -27,9 +27,10 @@ def vio(prop, clause, detail, case, check, cls=""):
 # C17  inferred column mappings
 
 NODE_VOCAB = ["time", "id", "parent_id", "seg_id", "area", "Area", "pos", "x", "y", "z", "track_id", "tracklet_id",
-              "lineage_id", "circularity", "Circularity", "major_axis", "Time", "t", "X", "Y", "ID", "label", "foo", "score"]
+              "lineage_id", "circularity", "Circularity", "major_axis", "Time", "t", "X", "Y", "ID", "label", "foo", "score",
+              "perimeter", "volume", "ellipse_axis_radii", "Score"]
 NODE_VOCAB_THIN = ["time", "id", "parent_id", "seg_id", "area", "Area", "x", "y", "z", "track_id", "lineage_id",
-                   "Time", "t", "X", "ID", "foo"]
+                   "Time", "t", "X", "ID", "foo", "perimeter", "circularity"]
 EDGE_VOCAB = ["iou", "IoU", "IOU", "overlap", "w", "Iou", "score", "i"]
 
 
@@ -91,6 +92,14 @@ def c17_cases(tier):
             for n in range(0, k + 1):
                 for cols in itertools.permutations(vocab, n):
                     yield ("node", cols, required, ndim)
+    # four- and five-column tables over the names that can displace one another in a chain
+    # (a column spelled like one feature key but closest to another feature's display name)
+    focus = ["time", "area", "perimeter", "circularity", "volume", "Area", "pos", "x", "id"]
+    for ndim in (3, 4):
+        for required in (("time",), ("time", "id", "parent_id")):
+            for n in (4, 5) if not q else (4,):
+                for cols in itertools.permutations(focus, n):
+                    yield ("node", cols, required, ndim)
     if not q:
         for ndim in (3, 4):
             for required in (("time",), ("time", "id", "parent_id")):
@@ -108,8 +117,11 @@ def c17_cases(tier):
 
 def c19_unique_case(case):
     from funtracks.utils import ensure_unique_labels
-    kind, shape, flat, multiseg = case
+    kind, shape, flat, multiseg = case[:4]
     arr = np.array(flat, dtype=np.int64).reshape(shape)
+    if len(case) > 4 and case[4] == "noncontig":
+        # the same values in a non-C-contiguous array (first two axes stored swapped)
+        arr = np.ascontiguousarray(np.swapaxes(arr, 0, 1)).swapaxes(0, 1)
     orig = arr.copy()
     out = []
     try:
@@ -162,6 +174,9 @@ def c19_unique_cases(tier):
         yield ("unique", (2, 2, 1, 2), flat, False)
     for flat in itertools.product((0, 1, 2), repeat=6):
         yield ("unique", (3, 1, 1, 2), flat, True)
+    for flat in itertools.product((0, 1, 2), repeat=8):
+        yield ("unique", (2, 2, 1, 2), flat, True, "noncontig")
+        yield ("unique", (2, 2, 1, 2), flat, False, "noncontig")
     # several hypotheses of 3D frames: (h, t, z, y, x)
     for flat in itertools.product((0, 1, 2), repeat=8):
         yield ("unique", (2, 1, 2, 1, 2), flat, True)
@@ -314,9 +329,12 @@ def c18_points_cases(tier):
 
 def c18_seg_case(case):
     from funtracks.candidate_graph import compute_graph_from_seg
-    kind, flat, maxd, scale = case
+    kind, flat, maxd, scale = case[:4]
     T, Wd = 5, 3
     seg = np.array(flat, dtype=np.int64).reshape((T, 1, Wd))
+    if len(case) > 4 and case[4] == "u8":
+        # a narrow label dtype with label values whose products wrap (16 * 32 = 512 = 0 mod 256)
+        seg = (seg * 16).astype(np.uint8)
     sc = [1.0, 1.0, 2.0] if scale else None
     try:
         g = compute_graph_from_seg(seg, maxd, iou=True, scale=sc)
@@ -389,6 +407,8 @@ def c18_seg_cases(tier):
             yield ("seg", flat, 1.0, False)
             if n <= 2 or not q:
                 yield ("seg", flat, 2.0, True)
+            if n <= 3:
+                yield ("seg", flat, 1.0, False, "u8")
 
 
 # ===========================================================================
@@ -396,8 +416,10 @@ def c18_seg_cases(tier):
 
 def c13_case(case):
     from funtracks.import_export._import_segmentation import relabel_segmentation
-    kind, shape, flat, assign = case  # assign: tuple of ((t, label), node_id)
+    kind, shape, flat, assign = case[:4]  # assign: tuple of ((t, label), node_id)
     seg = np.array(flat, dtype=np.int64).reshape(shape)
+    if len(case) > 4 and case[4] == "u8":
+        seg = seg.astype(np.uint8)  # node ids may be wider than the dtype of the source labels
     out = []
     if kind == "direct":
         g = nx.DiGraph()
@@ -413,7 +435,7 @@ def c13_case(case):
         except Exception as e:  # noqa: BLE001
             return [vio("C13", "raises", f"{type(e).__name__}: {e}", case, "relabel_segmentation")]
         off = 1 if 0 in node_ids else 0
-        exp = np.zeros_like(orig)
+        exp = np.zeros(orig.shape, dtype=np.int64)
         for (t, lab), nid in assign:
             exp[t][orig[t] == lab] = nid + off
         if not np.array_equal(np.asarray(res).astype(np.int64), exp):
@@ -475,6 +497,15 @@ def c13_cases(tier):
             continue
         for perm in itertools.permutations((0, 1, 2, 3), len(present)):
             yield ("direct", shape3, flat, tuple(zip(present, perm)))
+    # uint8 label array, node ids above 255
+    for flat in itertools.product((0, 1, 2), repeat=6):
+        seg = np.array(flat).reshape((2, 1, 3))
+        present = [(t, int(lab)) for t in range(2) for lab in np.unique(seg[t]) if lab]
+        if not present:
+            continue
+        for perm in itertools.permutations((1, 256, 257, 300), len(present)):
+            if len(present) <= 3:
+                yield ("direct", (2, 1, 3), flat, tuple(zip(present, perm)), "u8")
     shape = (2, 1, 3)
     labels = (0, 1, 2, 3) if not q else (0, 1, 2)
     ids = (0, 1, 2, 3, 4) if not q else (0, 1, 2, 3)
